@@ -39,6 +39,9 @@ type Glyf []Glyph
 // ParseGlyf parses the 'glyf' table.
 // locaOffsets has length numGlyphs + 1, and is returned by ParseLoca
 func ParseGlyf(src []byte, locaOffsets []uint32) (Glyf, error) {
+	if len(locaOffsets) == 0 {
+		return nil, errors.New("invalid empty loca offsets")
+	}
 	out := make(Glyf, len(locaOffsets)-1)
 	var err error
 	for i := range out {
@@ -46,6 +49,9 @@ func ParseGlyf(src []byte, locaOffsets []uint32) (Glyf, error) {
 		// If a glyph has no outline, then loca[n] = loca [n+1].
 		if start == end {
 			continue
+		}
+		if start > end || uint64(end) > uint64(len(src)) {
+			return nil, fmt.Errorf("invalid loca offsets [%d:%d] for glyf table of length %d", start, end, len(src))
 		}
 		out[i], _, err = ParseGlyph(src[start:end])
 		if err != nil {
